@@ -256,6 +256,9 @@ pub extern "sysv64" fn memory_read_byte(areas: *const MemoryAreas, addr: u16) ->
   if addr < 0xff80 { // I/O
     if addr == 0xff46 {
       // TODO: OAM should return last written value
+      // Until then it reads like any other unreadable register; it must not
+      // fall through to high RAM.
+      return 0xff;
     } else {
       return memory_areas.io.get_byte(addr);
     }
